@@ -96,7 +96,7 @@ CHECKS = {
         require={'__nontrivial__': 0.1},
         pkg="c15", level="exploration",
         rule="rapid-generated ((x1,x2,x3,x4) over the documented ranges with x4 forced through every unit-hydrograph length class and values at/just below/just above integers and half-integers, non-negative rain/PET series, initial stores zero or carried from a warm-up of the reference); "
-             "oracle: an independent implementation of Perrin et al. (2003) (simref/gr4jref.go) compared on runoff at every step and on (S, R, UH stores) at the end, 1e-9 relative + 1e-10*(1+magnitude). Non-trivial = x4 >= 2 or x4 < 1 and a storm; distinct = distinct case",
+             "oracle: an independent implementation of Perrin et al. (2003) (simref/gr4jref.go) compared step by step: from the code's own state after every step, one step of the reference must give the code's runoff and next state (S, R, UH stores) to 1e-11 relative (no round-off is carried between steps; a whole-run comparison is meaningless where the routing-store map is expanding). Non-trivial = x4 >= 2 or x4 < 1 and a storm; distinct = distinct case",
         assumptions=["the reference implementation in simref/gr4jref.go transcribes the published equations correctly"],
         quick=dict(stages=[st(4000, timeout=900)]),
         thorough=dict(stages=[st(30000, shards=16, timeout=3000)]),
